@@ -1,6 +1,7 @@
 package main
 
 import (
+	"regexp"
 	"encoding/hex"
 	"fmt"
 	"strings"
@@ -101,9 +102,20 @@ func isSubsequence(sub, full []string) bool {
 type inlineRule struct {
 	class string
 	decls []string // "prop:value"
+	// a rule that is NOT a simple class rule (descendant, compound, pseudo-class, element-qualified, id, attribute selector):
+	// printed with this selector; none of its declarations may show up anywhere
+	decoySel string
 }
 
 func (r inlineRule) css() string {
+	if r.decoySel != "" {
+		var parts []string
+		for _, d := range r.decls {
+			kv := strings.SplitN(d, ":", 2)
+			parts = append(parts, kv[0]+": "+kv[1]+";")
+		}
+		return r.decoySel + " { " + strings.Join(parts, " ") + " }"
+	}
 	var parts []string
 	for _, d := range r.decls {
 		kv := strings.SplitN(d, ":", 2)
@@ -116,6 +128,9 @@ func (r inlineRule) css() string {
 	}
 	return strings.Join(sels, ", ") + " { " + strings.Join(parts, " ") + " }"
 }
+
+var spaceGtRe = regexp.MustCompile(`\s+>`)
+var styleAttrRe = regexp.MustCompile(`(?i)\s+style\s*=\s*("[^"]*"|'[^']*')`)
 
 // c19Judge compares a document with an inline block against the same document without it.
 func c19Judge(drv *DriverPool, withSrc, withoutSrc string, rules []inlineRule, res *Result, key string) (string, string) {
@@ -156,9 +171,23 @@ func c19Judge(drv *DriverPool, withSrc, withoutSrc string, rules []inlineRule, r
 	}
 	classes := map[string][]string{}
 	for _, r := range rules {
+		if r.decoySel != "" {
+			continue
+		}
 		for _, c := range strings.Split(r.class, ",") {
 			classes[c] = append(classes[c], r.decls...)
 		}
+	}
+	// byte level: with every style attribute cut out of both outputs, the bodies are the same bytes (attribute spelling, quotes,
+	// white space inside tags, comments are not the inliner's to touch)
+	cut := func(h string) string {
+		// white space directly in front of '>' is left over where an attribute was cut (HTMLTag writes `class="x" >` for an empty
+		// style): not a difference
+		return spaceGtRe.ReplaceAllString(styleAttrRe.ReplaceAllString(bodyOf(alphaIDs(h)), ""), ">")
+	}
+	if bw, bo := cut(hw), cut(ho); bw != bo {
+		at := firstDiff(bw, bo)
+		return "bytes-changed-outside-style", fmt.Sprintf("with the style attributes cut out the bodies differ at %d: …%s… vs …%s…", at, around(bw, at), around(bo, at))
 	}
 	inMso := false
 	for i := range tw {
@@ -200,7 +229,19 @@ func c19Judge(drv *DriverPool, withSrc, withoutSrc string, rules []inlineRule, r
 				return "declarations-missing|<" + tw[i].name + ">", fmt.Sprintf("<%s class=%q> style=%q lacks %v", tw[i].name, cls, sw, ds)
 			}
 		}
-		// nothing else was added
+		// nothing else was added: every declaration comes from the original style or from a rule that targets the element
+		for _, d := range dw {
+			found := false
+			for _, x := range do {
+				found = found || x == d
+			}
+			for _, x := range want {
+				found = found || x == d
+			}
+			if !found {
+				return "declaration-from-nowhere", fmt.Sprintf("<%s class=%q>: style %q carries %q, which is neither in the original style %q nor in a simple class rule for its classes", tw[i].name, cls, sw, d, so)
+			}
+		}
 		if len(dw) != len(do)+len(want) && len(want) == 0 && len(dw) != len(do) {
 			return "style-added-without-class", fmt.Sprintf("<%s class=%q>: style %q vs %q", tw[i].name, cls, sw, so)
 		}
@@ -216,7 +257,7 @@ func runC19(res *Result, tier string, seed int64, replay string) {
 		return
 	}
 	defer drv.Close()
-	rules := []inlineRule{{"ka", []string{"color:#111111", "font-weight:bold"}}, {"kb", []string{"text-decoration:underline"}}}
+	rules := []inlineRule{{class: "ka", decls: []string{"color:#111111", "font-weight:bold"}}, {class: "kb", decls: []string{"text-decoration:underline"}}}
 	block := func(rs []inlineRule, multiline bool) string {
 		var parts []string
 		for _, r := range rs {
@@ -242,7 +283,13 @@ func runC19(res *Result, tier string, seed int64, replay string) {
 	// two rule sets: plain single-class rules, and a grouped rule (with a trailing ';') followed by one rule per class — the
 	// declarations of a class are the concatenation of all rules that name it, in rule order
 	ruleSets := [][]inlineRule{rules,
-		{{"ka,kb", []string{"color:#111111"}}, {"ka", []string{"margin:0"}}, {"kb", []string{"padding:0"}}, {"ka", []string{"font-weight:bold"}}}}
+		{{class: "ka,kb", decls: []string{"color:#111111"}}, {class: "ka", decls: []string{"margin:0"}}, {class: "kb", decls: []string{"padding:0"}}, {class: "ka", decls: []string{"font-weight:bold"}}},
+		// simple rules between rules that are not simple class rules: descendant, compound, child, pseudo-class, pseudo-element,
+		// element-qualified, id, attribute and universal selectors — those inline nothing
+		{{decoySel: ".ka .kz", decls: []string{"top:1px"}}, {class: "ka", decls: []string{"color:#111111"}}, {decoySel: ".ka.kz", decls: []string{"top:2px"}},
+			{decoySel: "p.ka", decls: []string{"top:3px"}}, {decoySel: ".kb:hover", decls: []string{"top:4px"}}, {class: "kb", decls: []string{"text-decoration:underline"}},
+			{decoySel: ".ka > b", decls: []string{"top:5px"}}, {decoySel: "#ka", decls: []string{"top:6px"}}, {decoySel: ".kb[data-x]", decls: []string{"top:7px"}},
+			{decoySel: ".ka::before", decls: []string{"top:8px"}}, {decoySel: "*", decls: []string{"top:9px"}}, {decoySel: ".ka + .kb", decls: []string{"bottom:1px"}}, {decoySel: "div", decls: []string{"bottom:2px"}}}}
 	for _, rules := range ruleSets {
 		// (1) per component
 		for _, tag := range bodyTags {
@@ -274,7 +321,11 @@ func runC19(res *Result, tier string, seed int64, replay string) {
 			`<img class="ka" src="i.png"/>`, `<br class="kb">`, `<td class="ka" style='padding:1px;' data-q="it's">c</td>`, `<div class="zz ka">n</div>`,
 			`<p class="kaa">not targeted</p>`, `<p CLASS="ka">upper</p>`, `<input class="kb" disabled>`,
 			`<span class='ka' style='font-family:"Helvetica Neue",Arial'>q</span>`, `<span style="font-family:'Open Sans'" class="kb">q2</span>`,
-			`<b class=ka>unquoted</b>`, `<i class = "kb" >spaced</i>`, `<u class="ka" style="">empty style</u>`, `<em class="ka" style="color:blue">no semicolon</em>`,
+			`<b class=ka>unquoted</b>`, `<i class = "kb" >spaced</i>`,
+			// comments with unpaired quotes next to class-bearing tags, unquoted values with slashes, tags over several lines
+			`<!-- don't --><p class="ka">after comment</p>`, `<p class="kb">before</p><!-- it's "x -->`, `<!-- a > b --><span class='ka'>gt</span>`,
+			`<a href=http://x/a class=ka>slash</a>`, `<img src=i.png class=kb>`, "<p\n  class=\"ka\"\n  id='n'\n>lines</p>", `<p class  =  'ka kb'   id = x >spaces</p>`,
+			`<p id="a" class="ka" hidden data-e="">mixed</p>`, `<P Class="ka" STYLE="Top:0">case</P>`, `<u class="ka" style="">empty style</u>`, `<em class="ka" style="color:blue">no semicolon</em>`,
 		}
 		carriers := []struct{ name, open, close string }{
 			{"mj-text", "<mj-text>", "</mj-text>"}, {"mj-button", `<mj-button href="u">`, "</mj-button>"},
@@ -316,7 +367,7 @@ func runC19(res *Result, tier string, seed int64, replay string) {
 			for j, m := 0, 1+r.Intn(2); j < m; j++ {
 				ds = append(ds, pool[r.Intn(len(pool))])
 			}
-			rs = append(rs, inlineRule{g, ds})
+			rs = append(rs, inlineRule{class: g, decls: ds})
 		}
 		for _, c := range []string{"ka", "kb", "kc"} {
 			if r.Bool(2, 3) {
@@ -324,7 +375,7 @@ func runC19(res *Result, tier string, seed int64, replay string) {
 				for j, m := 0, 1+r.Intn(3); j < m; j++ {
 					ds = append(ds, r.Pick([]string{"color:red", "margin:0", "font-size:12px", "border:1px solid #000", "text-align:center", "line-height:1.2"}))
 				}
-				rs = append(rs, inlineRule{c, ds})
+				rs = append(rs, inlineRule{class: c, decls: ds})
 			}
 		}
 		if len(rs) == 0 {
